@@ -218,7 +218,7 @@ func TestVerifC06Sizes(t *testing.T) {
 		h := types.Header{
 			Version: tmversion.Consensus{Block: version.BlockProtocol, App: uint64(c06PickI64(r))},
 			ChainID: string(r.Bytes(r.Intn(types.MaxChainIDLen + 1))), Height: c06PickI64(r), Time: c06PickTime(r),
-			LastBlockID: types.BlockID{Hash: c06HashLen(r, 32), PartSetHeader: types.PartSetHeader{Total: uint32(c06PickI64(r)), Hash: c06HashLen(r, 32)}},
+			LastBlockID:    types.BlockID{Hash: c06HashLen(r, 32), PartSetHeader: types.PartSetHeader{Total: uint32(c06PickI64(r)), Hash: c06HashLen(r, 32)}},
 			LastCommitHash: c06HashLen(r, 32), DataHash: c06HashLen(r, 32), ValidatorsHash: c06HashLen(r, 32),
 			NextValidatorsHash: c06HashLen(r, 32), ConsensusHash: c06HashLen(r, 32), AppHash: c06HashLen(r, 32),
 			LastResultsHash: c06HashLen(r, 32), EvidenceHash: c06HashLen(r, 32), ProposerAddress: c06HashLen(r, 20),
